@@ -15,3 +15,19 @@ pub open spec fn ctr_layout(iv: Seq<u8>, i: int, wb: nat, be: bool) -> Seq<u8> {
 pub open spec fn ctr_ks(e: spec_fn(Blk) -> Blk, wb: nat, be: bool) -> KStep {
     |a: KAbs| (KAbs { base: a.base, pos: (a.pos + 1) % pow256(wb) }, e(ctr_layout(a.base, a.pos, wb, be)))
 }
+
+// whole steps of a CTR keystream generator keep the base (nonce part)
+pub proof fn ctr_run_base(e: spec_fn(Blk) -> Blk, wb: nat, be: bool, a: KAbs, n: nat)
+    ensures ks_run(ctr_ks(e, wb, be), a, n).0.base == a.base
+    decreases n
+{
+    if n > 0 { ctr_run_base(e, wb, be, ctr_ks(e, wb, be)(a).0, (n - 1) as nat); }
+}
+
+pub proof fn ctr_reach_base(e: spec_fn(Blk) -> Blk, wb: nat, be: bool, a0: KAbs, a1: KAbs)
+    requires ks_reach(ctr_ks(e, wb, be), a0, a1)
+    ensures a1.base == a0.base
+{
+    let n = choose |n: nat| a1 == #[trigger] ks_run(ctr_ks(e, wb, be), a0, n).0;
+    ctr_run_base(e, wb, be, a0, n);
+}
